@@ -82,8 +82,27 @@ def programs(ctx):
         [[dict(op="WeakRef", h="c1", new="", w="w1"), R("c1"), dict(op="WeakAddRef", h="", new="c3", w="w1"), C("c3")], [R("c9"), dict(op="IsValid", h="c9", new="", w="")]],
         [[dict(op="Fulfill", h="nil", new="", w="")], [dict(op="WeakRef", h="c2", new="", w="w2"), dict(op="WeakAddRef", h="", new="c4", w="w2"), C("c2"), R("c2")]],
     ]
+    F = lambda h: dict(op="Fulfill", h=h, new="", w="")
+    core += [
+        # three threads: the last reference goes away while a call is inside the hook, and the promise is fulfilled before the call ends
+        [[C("c2")], [R("c2")], [F("c1")]],
+        [[C("c2")], [R("c2")], [F("nil")]],
+        [[C("c1")], [R("c1")], [R("c9")]],
+        [[C("c2")], [R("c2")], [F("c1"), C("c1")]],
+        [[C("c2"), C("c2")], [F("c1")], [R("c2"), R("c1"), R("c9")]],
+    ]
+    cb = 1500 if ctx.quick else 20000     # hand-picked race programs are explored (nearly) exhaustively
     for i, c in enumerate(core):
-        progs.append({"id": "core-%d" % i, "threads": c})
+        progs.append({"id": "core-%d" % i, "threads": c, "budget": cb})
+    # the promised client has two references (c2, c0) used by different threads
+    core0 = [
+        [[C("c2"), R("c2")], [R("c0")], [F("c1")]],
+        [[C("c2")], [C("c0"), R("c0")], [F("c1"), R("c1")]],
+        [[R("c2")], [C("c0"), R("c0")], [F("nil")]],
+        [[dict(op="WeakRef", h="c2", new="", w="w2"), R("c2"), dict(op="WeakAddRef", h="", new="c4", w="w2")], [C("c0"), R("c0")], [F("c1")]],
+    ]
+    for i, c in enumerate(core0):
+        progs.append({"id": "core0-%d" % i, "threads": c, "extra": "c0", "budget": cb})
     t1 = thread_programs(1, 2 if ctx.quick else 3, True)
     t2 = thread_programs(2, 2 if ctx.quick else 3, False)
     t2f = thread_programs(2, 2, True)
